@@ -46,7 +46,10 @@ RULE = ("approval elections and cardinal elections whose ballots score every pro
         "up_to_func None/min/max, strong-EJR, EJR/-any/-one, PJR/-any/-one) on each; Equal Shares outcome under "
         "each approval measure; every 4th sampled case is a HISTORY: one or two earlier states (one or two ballots "
         "toggled/rescored/redrawn, and/or another budget; same voters count) are queried on the same objects "
-        "before the final state is reached by in-place edits or item replacement. non-trivial = distinct election on which some checker answers True for one "
+        "before the final state is reached by in-place edits or item replacement; every 5th sampled case is a "
+        "cardinal DISAGREEMENT election (voters agree on most projects, one project is scored high by one "
+        "member and 0 by another, budget = total cost or just around it so that large groups have nested "
+        "cohesive sets) aimed at the up-to-one / up-to-any surplus of the cardinal EJR/PJR checkers. non-trivial = distinct election on which some checker answers True for one "
         "candidate and False for another")
 ASSUMPTIONS = [
     "hand-written Gallina model of cohesiveness.py / justifiedrepresentation.py tied to the code by differential execution only",
@@ -135,6 +138,48 @@ def _mk(kind, costs, b, ballots, order=None, tag="random"):
             "measures": ["Cost_Sat", "Cardinality_Sat"] if kind == "approval" else ["Additive_Cardinal_Sat"]}
 
 
+def _gen_disagree(rng, big):
+    """Targeted stream for the cardinal up-to-one / up-to-any checkers: the voters agree on most projects
+    and disagree strongly on one project q (one scores it high, one 0, the rest anything in between), so that
+    for a group the surplus of a set containing q (the group's MAXIMUM score of a missing project) is far
+    above what q adds to the threshold (the group's MINIMUM score); nested cohesive sets T' < T for the same
+    group (the budget lets the large groups afford everything, the small ones little); the candidate
+    allocations (all feasible ones) include the empty one and those missing most of T."""
+    n = rng.choice([3, 4, 5] if big else [2, 3, 3, 3, 4])
+    m = rng.choice([3, 4, 5] if big else [3, 3, 3, 4])
+    costs = [F(rng.choice([1, 1, 1, 2, 2, F(1, 2), 3])) for _ in range(m)]
+    tot = sum(costs, F(0))
+    q_ = rng.randrange(m)
+    agreed = [F(rng.choice([1, 1, 2, 2, 3, F(1, 2)])) for _ in range(m)]
+    ballots = [list(agreed) for _ in range(n)]
+    rest = sum((agreed[j] for j in range(m) if j != q_), F(0))
+    high = rest + rng.choice([0, 0, 0, 1, -1, F(1, 2)])
+    if high < 0:
+        high = F(0)
+    order = list(range(n))
+    rng.shuffle(order)
+    ballots[order[0]][q_] = high
+    ballots[order[-1]][q_] = F(0)
+    for v in order[1:-1]:
+        ballots[v][q_] = rng.choice([F(0), F(1), high, high / 2, max(F(0), high - 1), agreed[q_]])
+    for _ in range(rng.choice([0, 0, 1, 2])):          # a little noise on the agreed part
+        v, j = rng.randrange(n), rng.randrange(m)
+        if j != q_:
+            ballots[v][j] = F(rng.choice([0, 1, 2, 3]))
+    mode = rng.randrange(6)
+    if mode <= 2:
+        b = tot                                       # the whole electorate affords everything
+    elif mode == 3:
+        b = tot * n / max(1, n - 1)                    # so does every group of n-1 voters
+    elif mode == 4:
+        b = tot + rng.choice([1, F(1, 2)])
+    else:
+        b = tot - min(costs) if tot > min(costs) else tot
+    po = list(range(m))
+    rng.shuffle(po)
+    return _mk("cardinal", costs, b, ballots, po, tag="disagree" + ("-5x5" if big else ""))
+
+
 def gen(rng, i, tier):
     if tier != "quick":
         U = universe()
@@ -144,6 +189,8 @@ def gen(rng, i, tier):
         big = True
     else:
         big = False
+    if i % 5 == 4:
+        return _gen_disagree(rng, big)
     kind = "cardinal" if i % 3 == 2 else "approval"
     if big:
         n = rng.choice([3, 4, 4, 5, 5])
